@@ -26,7 +26,7 @@ TRUSTED = ["C14: hash/crc32.ChecksumIEEE is modelled by the bit-wise CRC-32 of B
 ASSUMPTIONS = ["node size N with (N-10)/11 <= 65535 (the uint16 root record count), file addresses below 2^(8*offset size)",
                "names used in one history have pairwise distinct hashes (otherwise: known finding C14-hash-collision-confuses-names)",
                "node size 0 (= default 4096) or >= 10: a node must be able to hold its 10 fixed bytes",
-               "/repo carries notes/fixes/c14-duplicate-key (the model follows the repaired code)"]
+               "/repo carries fix 6c2e9ef (duplicate key refused; notes/fixes/c14-duplicate-key): the model follows the repaired code"]
 
 M32 = 0xFFFFFFFF
 KF_ID = "C14-hash-collision-confuses-names"
@@ -292,8 +292,18 @@ def gen_history(rng, ns, length, pool_size, fill_first=0, weights=None):
             if k in "iu": o["v"] = gen_value(rng)
             ops.append(o)
     mode = rng.choice(["off", "immediate", "lazy", "incremental"])
-    return dict(ns=ns, mode=mode, thr=rng.choice([0, 10, 50, 200, 500]), delay=rng.random() < 0.3,
-                osz=rng.choice([8, 8, 8, 4]), ops=ops)
+    case = dict(ns=ns, mode=mode, thr=rng.choice([0, 10, 50, 200, 500]), delay=rng.random() < 0.3,
+                osz=rng.choice([8, 8, 8, 4, 2]), ops=ops)
+    if not addr_ok(case):
+        case["osz"] = 8
+    return case
+
+
+def addr_ok(case):
+    """Theorem hypothesis addr_ok: every address the bump allocator hands out fits the offset size."""
+    ns = 4096 if case["ns"] == 0 else case["ns"]
+    stores = sum(1 for o in case["ops"] if o["o"] == "p")
+    return 64 + stores * (ns + 30 + case["osz"]) <= 256 ** case["osz"]
 
 
 def gen_enumerated(depth):
@@ -351,7 +361,7 @@ def coq_case(case, g, exp):
     st = g["state"]
     recs = ";".join("(%d,%d)" % (h, int.from_bytes(i + b"", "little")) for h, i in recs_of(st["recs"]))
     lazy = "(Some (%d,%d))" % tuple(st["lazy"]) if "lazy" in st else "None"
-    filef = '(Some "%s")' % g["file"] if "file" in g else "None"
+    filef = '(Some "%s")' % g["file"] if "file" in g and len(g["file"]) <= 3000 else "None"
     codes = go_codes(g["res"])
     if any(c < 0 for c in codes):
         codes = [c if c >= 0 else 0 for c in codes]
@@ -365,8 +375,19 @@ def coq_case(case, g, exp):
 HDR = "From HV Require Import Base.Prelude Model.BT2 Model.BT2Tie.\nOpen Scope string_scope.\n"
 
 
+JOB_TIMES = {}
+
+
 def coq_hist_codes(items, name):
     """items: list of coq_case strings -> list of codes (one coqc process)."""
+    t = time.time()
+    try:
+        return _coq_hist_codes(items, name)
+    finally:
+        JOB_TIMES[name] = round(time.time() - t, 1)
+
+
+def _coq_hist_codes(items, name):
     v = HDR + "Definition cs : list hcase := [\n%s].\nDefinition CODES := Eval vm_compute in map hist_code cs.\nPrint CODES.\n" % ";\n".join(items)
     return vlib.parse_nlist(vlib.coq_eval(v, name), "CODES")
 
@@ -414,8 +435,51 @@ def shrink(H, case, pred, limit=250):
     return dict(case, ops=ops)
 
 
+# ------------------------------------------------------------------ replay of one stored case
+def replay(ctx):
+    H = ctx.harness
+    r = json.load(open(ctx.replay))
+    d = r.get("detail", {})
+    case = d.get("failing_input") or d.get("case") or {}
+    viol = []
+    if "ops" in case:
+        case = dict(dict(thr=50, delay=False, osz=8), **case)
+        g = vlib.run_harness(H, "c14", [case])[0]
+        bad = spec_check(case, g)
+        exp = oracle_run(case)[0]
+        code = coq_hist_codes([coq_case(case, g, exp)], "c14replay")[0] if "state" in g else -1
+        print("replay: history of %d operations, node size %s, mode %s" % (len(case["ops"]), case["ns"], case["mode"]))
+        print("  implementation results :", g.get("res"))
+        print("  map oracle result codes:", exp)
+        print("  implementation records :", g.get("state", {}).get("recs"), "nroot/total:", g.get("state", {}).get("nroot"), g.get("state", {}).get("total"))
+        print("  specification verdict  :", bad or "holds")
+        print("  Coq model agreement code (0 = all observables equal):", code)
+        if bad:
+            viol.append(dict(what="B-tree v2 index violates the map specification: " + bad[0], failing_input=case, all_violations=bad))
+        elif code & ~128:
+            viol.append(dict(what="implementation and Coq model disagree (code %d)" % code, case=case, nofail=True,
+                             correspondence="Model.BT2.run vs WritableBTreeV2"))
+    elif "key_hex" in case:
+        k = bytes.fromhex(case["key_hex"])
+        h = vlib.run_harness(H, "c14hash", [{"keys": [k.hex()]}])[0]["h"][0]
+        print("replay: hash of %s: implementation 0x%08x, lookup3 0x%08x" % (k.hex(), h, lookup3(k)))
+        if h != lookup3(k):
+            viol.append(dict(what="name hash differs from lookup3", failing_input=case))
+    elif "file" in case:
+        lr = vlib.run_harness(H, "c14load", [case])[0]
+        dd = dec_file(bytes.fromhex(case["file"]), case["addr"], case.get("osz", 8))
+        print("replay: LoadFromFile ->", "ok" if lr.get("ok") else lr.get("err"), "; format decoder ->", dd[0], dd[1] if dd[0] == "err" else "")
+        if (dd[0] == "ok") != bool(lr.get("ok")):
+            viol.append(dict(what="LoadFromFile verdict differs from the format", failing_input=case))
+    else:
+        print("replay: no case found in", ctx.replay)
+    return dict(violations=viol, known=[], coverage=dict(evaluations=1, distinct_nontrivial=1, rule="replay of one stored case", samples=[case]))
+
+
 # ------------------------------------------------------------------ the check
 def run(ctx):
+    if getattr(ctx, "replay", None):
+        return replay(ctx)
     H, rng, tier = ctx.harness, ctx.rng, ctx.tier
     viol, known = [], []
     t0 = time.time()
@@ -453,7 +517,7 @@ def run(ctx):
     # ---------------------------------------------------------------- histories: generate
     cases = []
     kf_pairs = json.load(open(os.path.join(vlib.VERIF, "corpus", "C14", "collision.json")))["pairs"]
-    nsmall, nmed, nbig = (110, 16, 4) if tier == "quick" else (6000, 400, 40)
+    nsmall, nmed, nbig = (400, 40, 6) if tier == "quick" else (4000, 250, 32)
     for _ in range(nsmall):
         ns = rng.choice(NODE_SMALL + [rng.randrange(10, 140), 0 if rng.random() < 0.03 else rng.randrange(10, 60)])
         cap = capacity(ns)
@@ -532,7 +596,8 @@ def run(ctx):
             elif o["o"] == "r": dist["rewrites" if e else "rewrite_refused"] += 1
             dist["max_records_seen"] = max(dist["max_records_seen"], len(live))
         coq_items.append(coq_case(case, g, exp))
-        coq_cost.append(40 + len(case["ops"]) * (1 + capacity(case["ns"]) // 8) + 60 * sum(1 for o in case["ops"] if o["o"] in "pr") * (1 + capacity(case["ns"]) // 6))
+        # measured: ~63 us per character of the literal (elaboration), ~(1.8 + 0.02*capacity) ms per operation
+        coq_cost.append(63 * len(coq_items[-1]) + len(case["ops"]) * (1800 + 20 * min(capacity(case["ns"]), 400)))
         coq_idx.append(ci)
 
     # ---------------------------------------------------------------- corrupted / truncated images
@@ -567,11 +632,13 @@ def run(ctx):
                                                          ";".join("(%d,%d)" % (h, int.from_bytes(i, "little")) for h, i in grecs)))
 
     # ---------------------------------------------------------------- Coq: model on the same inputs
+    # jobs of bounded cost (one coqc process each, <= ~12 s), longest-processing-time first
     order = sorted(range(len(coq_items)), key=lambda i: -coq_cost[i])
-    nwork = 14
-    bins = [[] for _ in range(nwork)]
-    loads = [0] * nwork
-    for i in order:                       # longest-processing-time first
+    total_cost = sum(coq_cost)
+    nbins = 14 if total_cost <= 14 * 25e6 else int(total_cost / 12e6) + 1
+    bins = [[] for _ in range(nbins)]
+    loads = [0] * nbins
+    for i in order:
         b = loads.index(min(loads))
         bins[b].append(i); loads[b] += coq_cost[i]
     jobs = list(hash_jobs)
@@ -676,6 +743,6 @@ def run(ctx):
         samples=[dict(case=dict(cases[coq_idx[i]], ops=cases[coq_idx[i]]["ops"][:6]), res=gos[coq_idx[i]]["res"][:6]) for i in range(min(3, len(coq_idx)))],
         programs=len(coq_items), disagreements_checked=len(coq_items) + len(pick) + len(load_items),
         model_evaluations_in_coq=len(coq_items) + len(pick) + len(load_items),
-        timing=dict(go_s=round(t_go, 1), coq_s=round(t_coq, 1)),
+        timing=dict(go_s=round(t_go, 1), coq_s=round(t_coq, 1), coq_jobs=len(JOB_TIMES), coq_job_max_s=max(JOB_TIMES.values() or [0])),
         exhaustive=False)
     return dict(violations=viol, known=known, coverage=cov)
